@@ -133,6 +133,8 @@ def _match_value(pat, val):
 def sig_matches(match: dict, sig: dict) -> bool:
     """A known-finding pattern matches a signature when every key of the pattern is
     present in the signature and matches (scalar: equal; list: member; dict: range)."""
+    if isinstance(match, list):  # any-of several patterns (one root cause seen through several sub-checks)
+        return any(sig_matches(m, sig) for m in match)
     for k, pat in match.items():
         if k not in sig:
             return False
